@@ -48,24 +48,24 @@ Theorem C11_linker_copy_disjoint K h r h' r' b :
   wf h' /\ same_subheap h h' b /\ sep h' r' b /\ (forall l, reach h' r' l -> (length h <= l)%nat).
 Proof. exact (linker_copy_disjoint K h r h' r' b). Qed.
 
-(* the copy is of the same class and observationally equal to the original at every depth *)
+(* the copy is of the same class and observationally equal to the original at every depth.  Only hypothesis: no duplicate keys in
+   the original's __dict__ (true of every dict).  No hypothesis about the class any more: since fix eb971db the copy drops whatever
+   __init__ of the class as it is NOW set up beyond the original's entries (was the guard "every key a fresh instance gets is a key
+   of the original", finding extra-entry-after-class-NAMES-extended) *)
 Theorem C11_copy_observationally_equal K h r h' r' o :
   copy_M K h r = Some (h', r') -> wf h -> nth_error h r = Some o ->
   NoDup (map fst (ocells o)) ->
-  (forall k, In k (copy_fresh_keys K h r) -> In k (map fst (ocells o))) ->
   (exists o', nth_error h' r' = Some o' /\ okind o' = okind o) /\ forall n, sim n h' (VR r) (VR r').
 Proof. exact (copy_sim K h r h' r' o). Qed.
 
 (* BaseLinker.copy returns a linker of the same class that is observationally equal to the original at every depth (its own
-   entries AND, through the new submodels dict, every submodel).  Hypotheses: no duplicate keys in the original's __dict__;
-   `submodels` is a dict; every submodel satisfies the hypotheses of C11_copy_observationally_equal in the heap in which it is
-   copied; every key a FRESH linker of the class gets is a key of the original *)
+   entries AND, through the new submodels dict, every submodel).  Hypotheses: no duplicate keys in the original's __dict__ nor in any
+   submodel's (in the heap in which it is copied); `submodels` is a dict *)
 Theorem C11_linker_copy_observationally_equal K h r h' r' o d od :
   linker_copy_M K h r = Some (h', r') -> wf h -> nth_error h r = Some o ->
   cell_get (A N_submodels) (ocells o) = Some (VR d) -> nth_error h d = Some od -> okind od = KDict ->
   NoDup (map fst (ocells o)) ->
   submodels_copyable_seq K h (ocells od) ->
-  (forall k, In k (linker_fresh_keys K h r) -> In k (map fst (ocells o))) ->
   (exists o', nth_error h' r' = Some o' /\ okind o' = okind o) /\ forall n, sim n h' (VR r) (VR r').
 Proof. exact (linker_copy_sim K h r h' r' o d od). Qed.
 
@@ -75,7 +75,6 @@ Theorem C11_linker_copy_observationally_equal_example :
     nth_error (sh s_lk) lk_root = Some o /\ cell_get KP (ocells o) = Some (VR lk_dict) /\
     nth_error (sh s_lk) lk_dict = Some od /\ okind od = KDict /\ wf (sh s_lk) /\
     NoDup (map fst (ocells o)) /\ submodels_copyable_seq K0 (sh s_lk) (ocells od) /\
-    (forall k, In k (linker_fresh_keys K0 (sh s_lk) lk_root) -> In k (map fst (ocells o))) /\
     linker_copy_M K0 (sh s_lk) lk_root = Some (h', r').
 Proof. exact ex_linker_copy_sim_hypotheses. Qed.
 
@@ -169,19 +168,20 @@ Theorem C11_sibling_linkers_on_copies_example :
   map (fun x => fst x) (sharing s1) = [(2, 6); (3, 6); (4, 7); (5, 7)]%nat.
 Proof. exact ex_sibling_linkers_on_copies. Qed.
 
-(* KEPT FINDING (known_findings.d/C11.json, C11|copy*|state-differs|extra-entry-after-class-NAMES-extended): the guard of
-   C11_copy_observationally_equal "every key a fresh instance gets is a key of the original" is needed.  After the class-level NAMES
-   list has been extended (a class mutation the property contemplates), copy() of an OLDER instance runs __init__ of the class as
-   it is now and keeps the extra `_<name>` array: the copy has an entry the original lacks (hasattr(copy, '_Z') vs
-   hasattr(original, '_Z')) — not observationally equal *)
-Theorem C11_copy_after_class_NAMES_extended_refuted :
+(* (was the kept finding C11|copy*|state-differs|extra-entry-after-class-NAMES-extended, repaired by fix eb971db; the general
+   positive statement is C11_copy_observationally_equal, which lost its guard)  on the former witness: after the class NAMES list was
+   extended, the copies of an OLDER instance by all three routes show exactly the original's tree, although a fresh instance of the
+   class now gets a key the original lacks *)
+Theorem C11_copy_after_class_NAMES_extended_equal :
   let s := run_events K0 (s0 0 None) [EInit 0 (args range_span)] in
   let sm := run_hevents K0 s [HOps 0 [OListAppend C_NAMES 209]] in
-  let s1 := run_hevents K0 sm [HEv (ECopy 1)] in
-  forallb (fun k => has_cell (sh s) 5%nat k) (copy_fresh_keys K0 (sh s) 5%nat) = true /\
+  let s1 := run_hevents K0 sm [HCopyRoute RCopy 1; HCopyRoute RCopyCopy 1; HCopyRoute RDeepCopy 1] in
   forallb (fun k => has_cell (sh sm) 5%nat k) (copy_fresh_keys K0 (sh sm) 5%nat) = false /\
-  nth 2 (root_views s1 3) CCut <> nth 1 (root_views s1 3) CCut.
-Proof. exact copy_after_class_mutation_has_extra_cell. Qed.
+  length (sroots s1) = 5%nat /\
+  nth 2 (root_views s1 6) CCut = nth 1 (root_views s1 6) CCut /\
+  nth 3 (root_views s1 6) CCut = nth 1 (root_views s1 6) CCut /\
+  nth 4 (root_views s1 6) CCut = nth 1 (root_views s1 6) CCut.
+Proof. exact ex_copy_after_class_names_extended_equal. Qed.
 
 (* footprint_within_reach — any operation (list of non-leaky actions) of a receiver r writes only inside reach h r or into new
    objects, and afterwards reaches only what it reached before or new objects *)
@@ -546,4 +546,4 @@ Print Assumptions C11_defined_history_independent.
 Print Assumptions C11_copy_defined_example.
 Print Assumptions C11_nested_container_outside_the_domain.
 Print Assumptions C11_sibling_linkers_on_copies_example.
-Print Assumptions C11_copy_after_class_NAMES_extended_refuted.
+Print Assumptions C11_copy_after_class_NAMES_extended_equal.
